@@ -10,7 +10,7 @@ from __future__ import annotations
 import ast
 import copy
 
-from .absval import (Lin, Sym, Opaque, Ch, Run, AbsStr, AObj, AFunc, AModule, AClass, ABuiltin,
+from .absval import (Lin, Sym, Opaque, Ch, Run, Rep, AbsStr, AObj, AFunc, AModule, AClass, ABuiltin,
                      ABound, simplify_str, INF)
 from .loader import AnalysisError, norm, short, FuncInfo
 
@@ -122,6 +122,7 @@ class Interp:
         self.stores = []  # (target description, value, node) for attribute / subscript stores on abstract objects
         self.global_cache = {}
         self.subst = {}  # Sym -> Lin (after unfolding a Run)
+        self.excluded = {}  # Lin shape -> set of excluded values of the non-constant part
         self.unfolded = {}  # Run -> replacement atoms
 
     # ------------------------------------------------------------------ utils
@@ -141,7 +142,16 @@ class Interp:
         return out
 
     def lin_interval(self, lin):
-        return self.resolve(lin).interval(self.refine)
+        lin = self.resolve(lin)
+        lo, hi = lin.interval(self.refine)
+        if self.excluded and lin.terms:
+            ex = {v + lin.const for v in self.excluded.get(lin.shape(), ())}
+            ex |= {-v + lin.const for v in self.excluded.get((-lin).shape(), ())}
+            while lo in ex and lo <= hi:
+                lo += 1
+            while hi in ex and hi >= lo:
+                hi -= 1
+        return (lo, hi)
 
     def norm_str(self, v):
         if not self.unfolded or not isinstance(v, AbsStr):
@@ -229,11 +239,7 @@ class Interp:
             return decide(lo >= 0, hi < 0, lambda: self._refine(d, lo=0), lambda: self._refine(d, hi=-1))
         if op is ast.Eq or op is ast.NotEq:
             def ne():
-                l2, h2 = self.lin_interval(d)
-                if l2 == 0:
-                    self._refine(d, lo=1)
-                elif h2 == 0:
-                    self._refine(d, hi=-1)
+                self.excluded.setdefault(d.shape(), set()).add(-d.const)
             r = decide(lo == hi == 0, lo > 0 or hi < 0, lambda: self._refine(d, lo=0, hi=0), ne)
             return r if op is ast.Eq else (not r)
         raise CannotDecide("comparison %s on linear forms" % op)
@@ -422,7 +428,6 @@ class Interp:
         if op is ast.Add and sa is not None and sb is not None:
             return simplify_str(AbsStr([sa, sb]))
         if op is ast.Mult and isinstance(a, str) and isinstance(b, Lin):
-            from .absval import Rep
             return AbsStr([Rep(a, b)])
         if op is ast.Mod and isinstance(a, str):
             return Opaque("format", [b])
@@ -469,6 +474,8 @@ class Interp:
         raise CannotDecide("compare %s on %r, %r" % (op.__name__, a, b))
 
     def equal(self, a, b, node=None):
+        if not _has_abs(a) and not _has_abs(b):
+            return a == b
         if isinstance(a, Ch) and isinstance(b, str):
             a, b = b, a
         if isinstance(a, str) and isinstance(b, Ch):
@@ -1210,7 +1217,6 @@ def _exc_names():
 
 
 def _is_rep(a):
-    from .absval import Rep
     return isinstance(a, Rep)
 
 
